@@ -284,6 +284,9 @@ def check(run, views, tier):
         include(run, c10, {cfg: crates}, tier, "|op-id")
         from . import c17
         include(run, c17, {cfg: {"ipp": crates["ipp"]}}, tier, "R-READY")
+        # the status word that is decoded is the one on the wire: exact, non-retried reads of the header (C07 / C06's reader clauses)
+        from . import c07
+        include(run, c07, {cfg: {"ipp": crates["ipp"]}}, tier)
     run.meta.setdefault("coverage_extra", {})["exhaustive"] = True
     run.meta["coverage_extra"]["inputs_enumerated"] = exhaustive_inputs
 
